@@ -146,6 +146,39 @@ def _formatter(run: Run, prog: Program, model: Model, err_kinds: Dict[str, Set[s
     run.floor("FORMAT-TOTAL", 12)
 
 
+def _no_errors_fact(t: Any, b: bool) -> bool:
+    """Does the decided condition (t is b) establish that the result carries no errors?  Recognised: the error list -
+    or a list built one-for-one from it - is empty (`len(X) == 0`, `not X`, `not len(X) > 0`), `not result.has_errors()`."""
+    from ..partial import _one_for_one_source
+    from ..interp_expr import ExprMixin
+
+    def is_errors(x: Any) -> bool:
+        x = ExprMixin._unwrap1(x)
+        src = _one_for_one_source(x)
+        if src is not None:
+            x = src
+        return isinstance(x, Term) and x.op == "mcall" and len(x.args) >= 2 and x.args[1] == "get_errors"
+
+    def length_of_errors(x: Any) -> bool:
+        return isinstance(x, Term) and x.op == "len" and is_errors(x.args[0])
+    if isinstance(t, Term) and t.op == "mcall" and len(t.args) >= 2 and t.args[1] == "has_errors":
+        return b is False
+    if isinstance(t, Term) and t.op == "eq" and len(t.args) == 2:
+        a0, a1 = t.args
+        for x, y in ((a0, a1), (a1, a0)):
+            if isinstance(x, Const) and x.value == 0 and not isinstance(x.value, bool) and length_of_errors(y):
+                return b is True
+    if isinstance(t, Term) and t.op == "lt" and len(t.args) == 2:
+        a0, a1 = t.args
+        if isinstance(a0, Const) and a0.value == 0 and length_of_errors(a1):
+            return b is False          # not (0 < len(errors))
+        if isinstance(a1, Const) and a1.value == 1 and length_of_errors(a0):
+            return b is True           # len(errors) < 1
+    if length_of_errors(t) or is_errors(t):
+        return b is False              # truthiness of the list / of its length
+    return False
+
+
 def _or_fail(run: Run, prog: Program, model: Model) -> None:
     f = prog.func("d42.validation.validate_or_fail")
     it = Interp(prog, model, unroll=1)
@@ -162,7 +195,7 @@ def _or_fail(run: Run, prog: Program, model: Model) -> None:
     for p in rets:
         if not (isinstance(p.value, Const) and p.value.value is True):
             probs.append(f"returns {p.value.key()[:30] if p.value else None} instead of True")
-        if not any("len(" in k and b for k, _, b in p.facts if k.startswith("eq(")):
+        if not any(_no_errors_fact(t, b) for _, t, b in p.facts):
             probs.append("returns True on a path that did not establish `no errors`")
     for p in raises:
         exc = p.value
